@@ -189,6 +189,26 @@ pub fn late_await(variant: usize) -> Scenario {
     }
 }
 
+/// Stale await answers: a select over `[slow await, receive]` is completed by a message while
+/// the "not finished yet" answer to its await handshake is still in flight; the process then
+/// goes on to park somewhere else (a spawn, another select, an await of a fresh child).
+pub fn stale_await(variant: usize) -> Scenario {
+    let src = match variant {
+        0 => "s = @{ !'bin },\nr = @{ v = ! [s, #'int], q = @{ 3 }, w = !q, [v, w] },\n1 r,\n!r",
+        1 => "s = @{ !'bin },\nr = @{ v = ! [s, #'int], q = @{ 3 }, p = @{ 4 }, [v, !q, !p] },\n1 r,\n!r",
+        2 => "s = @{ !'bin },\nr = @{ v = ! [s, #'int], u = !#'int, [v, u] },\n1 r,\n2 r,\n!r",
+        _ => "s = @{ !'bin },\nt = @{ !'bin },\nr = @{ v = ! [s, #'int], u = ! [t, #'int], q = @{ 3 }, [v, u, !q] },\n1 r,\n2 r,\n!r",
+    };
+    Scenario {
+        id: format!("stale_await({})", variant),
+        family: "stale_await",
+        source: src.to_string(),
+        confluent: true,
+        io: false,
+        expect: None,
+    }
+}
+
 /// `spawn_storm(n)`: a process receives messages while its own spawns are in flight (the
 /// CHANGELOG 0.2.1 bug shape): the parent sends to `s` while `s` spawns n children.
 pub fn spawn_storm(n: usize) -> Scenario {
@@ -320,6 +340,9 @@ pub fn confluent_all(thorough: bool) -> Vec<Scenario> {
     for variant in 0..5 {
         v.push(typed_mail(variant));
     }
+    for variant in 0..4 {
+        v.push(stale_await(variant));
+    }
     v
 }
 
@@ -341,7 +364,7 @@ pub fn messaging_all(thorough: bool) -> Vec<Scenario> {
 }
 
 pub const FAMILIES: &[&str] = &[
-    "pipe", "fanout", "fanout_race", "reqrep", "await_chain", "late_await", "spawn_storm", "fanin", "typed_mail", "bin", "select_mix", "fail", "res",
+    "pipe", "fanout", "fanout_race", "reqrep", "await_chain", "late_await", "spawn_storm", "fanin", "typed_mail", "stale_await", "bin", "select_mix", "fail", "res",
     "refs",
 ];
 
